@@ -37,6 +37,29 @@ func Eval(d *fakedocker.Daemon, query string, p Params) (lokiapi.QueryResponseDa
 	})
 }
 
+// engineSide hides the capabilities of a Querier: the engine then evaluates every selector
+// matcher and line filter itself.
+type engineSide struct{ logqlengine.Querier }
+
+func (engineSide) Capabilities() logqlengine.QuerierCapabilities {
+	return logqlengine.QuerierCapabilities{}
+}
+
+// EvalEngineSide is Eval with the storage's capabilities hidden from the engine.
+func EvalEngineSide(d *fakedocker.Daemon, query string, p Params) (lokiapi.QueryResponseData, error) {
+	q, err := dockerlog.NewQuerier(d)
+	if err != nil {
+		return lokiapi.QueryResponseData{}, err
+	}
+	eng := logqlengine.NewEngine(engineSide{q}, logqlengine.Options{})
+	return eng.Eval(context.Background(), query, logqlengine.EvalParams{
+		Start: pcommon.Timestamp(p.Start),
+		End:   pcommon.Timestamp(p.End),
+		Step:  time.Duration(p.Step),
+		Limit: p.Limit,
+	})
+}
+
 // Line is one log line of a fake container.
 type Line struct {
 	TS  int64  `json:"ts"` // unix nanoseconds
